@@ -53,6 +53,8 @@ pub struct DocStats {
     pub object_cond: u32,
     pub nested_fragments: u32,
     pub named_fragments: u32,
+    /// spreads of a fragment away from the place it was first spread
+    pub reused_fragments: u32,
     pub repeated_keys: u32,
     pub directive_literal: u32,
     pub directive_var: u32,
@@ -336,6 +338,18 @@ impl<'a> G<'a> {
                         let directives = self.directives(s);
                         let sel = self.selset(s, &sel_on, depth - 1, in_frag + 1);
                         items.push(Selection::Inline(Inline { pos: Pos::default(), cond: if untyped { None } else { Some(Name::new(cond)) }, cond_pos: Pos::default(), directives, sel }));
+                    } else if self.cfg.repeats && self.frags.iter().any(|f| conds.contains(&f.cond.s)) && s.chance(1, 3) {
+                        // spread an already finished fragment again, somewhere else in the document (other parent,
+                        // other depth; finished fragments only, so no cycles)
+                        let usable: Vec<usize> = self.frags.iter().enumerate().filter(|(_, f)| conds.contains(&f.cond.s)).map(|(i, _)| i).collect();
+                        let fr = &self.frags[usable[s.choose(usable.len())]];
+                        let (name, fcond) = (fr.name.s.clone(), fr.cond.s.clone());
+                        self.note_cond(parent, &fcond);
+                        self.stats.reused_fragments += 1;
+                        if in_frag > 0 {
+                            self.stats.nested_fragments += 1;
+                        }
+                        items.push(Selection::Spread(Spread { pos: Pos::default(), name: Name::new(name), directives: vec![] }));
                     } else if self.frag_budget > 0 {
                         self.frag_budget -= 1;
                         self.note_cond(parent, &cond);
